@@ -332,6 +332,7 @@ func (s *Swarm) close() {
 	// Wait for everything to finish.
 	// We must wait for all the connection notifications to complete before
 	// closing the events emitter.
+	verifYield("close:conns-closing")
 	s.refs.Wait()
 	s.connectionEventsEmitter.Close()
 	s.emitter.Close()
@@ -443,8 +444,10 @@ func (s *Swarm) addConn(tc transport.CapableConn, dir network.Direction) (*Conn,
 	// AddConn dispatches PeerConnectednessChanged and Notifiee.Connected before
 	// c.start() spawns the AcceptStream loop, so handlers see the conn before
 	// any inbound stream arrives.
+	verifYield("addConn:registered")
 	s.connectionEventsEmitter.AddConn(c)
 
+	verifYield("addConn:announced")
 	c.start()
 	return c, nil
 }
